@@ -114,6 +114,7 @@ pub struct ScenarioProfile {
     pub rf: bool,
     pub ops: Vec<Op>,
     pub files: (usize, usize),
+    pub hardlinks: u32,
 }
 
 pub fn pat_strategy() -> BoxedStrategy<PatSpec> {
@@ -135,7 +136,7 @@ pub fn dcase_strategy(sp: ScenarioProfile) -> BoxedStrategy<DCase> {
                 classes: 3,
                 boundary_sizes: false,
                 max_size: 40,
-                hardlinks: 3,
+                hardlinks: sp.hardlinks,
                 symlinks: if sp.symlinks { 2 } else { 0 },
                 near_dup_pairs: 0,
                 resplit: 0,
